@@ -204,6 +204,11 @@ int get_tmp_fd(zckCtx *zck) {
     temp_fd = mkstemp(fname);
     umask(old_mode_mask);
     #endif
+    if(temp_fd == 0) {
+        /* A temp_fd of 0 means "no temporary file" elsewhere, so move it */
+        temp_fd = dup(0);
+        close(0);
+    }
     if(temp_fd < 0) {
         free(fname);
         set_error(zck, "Unable to create temporary file");
@@ -400,6 +405,9 @@ bool ZCK_PUBLIC_API zck_close(zckCtx *zck) {
     VALIDATE_BOOL(zck);
 
     if(zck->mode == ZCK_MODE_WRITE) {
+        /* The last chunk may be smaller than the minimum chunk size */
+        if(zck->comp.started)
+            zck->chunk_min_size = 0;
         if(zck_end_chunk(zck) < 0)
             return false;
         if(!header_create(zck))
